@@ -539,13 +539,18 @@ def rule_c(ctx):
     ctx.floor(R, 6)
     for cname in SOLVERS:
         f = m.func(WAS, f"{cname}._solve")
-        rhs = [s for s in ast.walk(f.node) if isinstance(s, ast.Assign) and norm(s.targets[0]) == "rhs"]
+        # the right-hand side is located by shape: the one three-part np.concatenate whose middle part is the weighted mass difference
+        rhs = [s for s in ast.walk(f.node) if isinstance(s, ast.Assign) and isinstance(s.targets[0], ast.Name) and isinstance(s.value, ast.Call)
+               and norm(s.value.func) == "np.concatenate" and s.value.args and isinstance(s.value.args[0], (ast.List, ast.Tuple)) and len(s.value.args[0].elts) == 3]
         ok = False
-        if len(rhs) == 1 and isinstance(rhs[0].value, ast.Call) and norm(rhs[0].value.func) == "np.concatenate":
+        if len(rhs) == 1:
+            nm = rhs[0].targets[0].id
             parts = [norm(e) for e in rhs[0].value.args[0].elts]
-            ok = (len(parts) == 3 and parts[0].startswith("np.zeros(self.grid.num_faces") and parts[1] == f"self.mass_matrix_cells.dot({f.params[1]})"
-                  and parts[2].startswith("np.zeros(1"))
-        ctx.ob(R, f.qname, "rhs = [0_faces | mass_matrix_cells . mass_diff | 0]", ok, norm(rhs[0].value)[:160] if rhs else "", f.node)
+            n_store = sum(1 for x in ast.walk(f.node) if isinstance(x, ast.Name) and isinstance(x.ctx, ast.Store) and x.id == nm)
+            used = any(isinstance(c, ast.Call) and norm(c.func) == "self.linear_solve" and len(c.args) > 1 and nm in {x.id for x in ast.walk(c.args[1]) if isinstance(x, ast.Name)} for c in ast.walk(f.node))
+            ok = (parts[0].startswith("np.zeros(self.grid.num_faces") and parts[1] == f"self.mass_matrix_cells.dot({f.params[1]})"
+                  and parts[2].startswith("np.zeros(1") and n_store == 1 and used)
+        ctx.ob(R, f.qname, "rhs = [0_faces | mass_matrix_cells . mass_diff | 0], assigned once and passed to linear_solve", ok, norm(rhs[0].value)[:160] if rhs else "", f.node)
     oc = m.func(WAS, "VariationalWassersteinDistance.optimality_conditions")
     rets = [norm(r.value) for r in ast.walk(oc.node) if isinstance(r, ast.Return)]
     ctx.ob(R, oc.qname, "residual = rhs - broken_darcy . solution - flux block", len(rets) == 1 and rets[0].startswith(f"{oc.params[1]} - self.broken_darcy.dot({oc.params[2]}) - self.flux_embedding.dot("),
@@ -651,8 +656,7 @@ def rule_e(ctx):
              "MobilityMode in _compute_face_weight, the chains end in `raise`, and the names used after the chain are "
              "assigned on every branch")
     m = ctx.model
-    for fname, attr, enum, after in (("transport_density", "l1_mode", "L1Mode", ["quad_pts", "quad_weights"]),
-                                      ("_compute_face_weight", "mobility_mode", "MobilityMode", ["face_weights", "face_weights_inv"])):
+    for fname, attr, enum, n_after in (("transport_density", "l1_mode", "L1Mode", 2), ("_compute_face_weight", "mobility_mode", "MobilityMode", 2)):
         f = m.func(WAS, f"VariationalWassersteinDistance.{fname}")
         members = enum_members(m, enum)
         ch = dispatch_chain(f.node, attr, enum)
@@ -662,13 +666,26 @@ def rule_e(ctx):
         ctx.ob(R, f.qname, f"every {enum} member has a branch", set(members) <= set(handled), f"members {members}, handled {handled}", node)
         ctx.ob(R, f.qname, f"no branch for a non-member of {enum}", set(handled) <= set(members), f"handled {handled}", node)
         ctx.ob(R, f.qname, "chain ends in raise", term, "", node)
-        for i, b in enumerate(bodies):
+        per_branch = []
+        for b in bodies:
             assigned = set()
             for s in b:
                 for x in ast.walk(s):
                     if isinstance(x, ast.Assign):
                         for t in x.targets:
                             assigned |= {nme for nme, k in C.targets_of(t) if k == "def"}
+            per_branch.append(assigned)
+        # names read after the chain that some branch assigns: each must be assigned by every branch
+        blk = getattr(node, "_parent", None)
+        sibs = []
+        for fld in ("body", "orelse", "finalbody"):
+            lst = getattr(blk, fld, None)
+            if isinstance(lst, list) and node in lst:
+                sibs = lst[lst.index(node) + 1:]
+        loaded = {x.id for s in sibs for x in ast.walk(s) if isinstance(x, ast.Name) and isinstance(x.ctx, ast.Load)}
+        after = sorted(loaded & set().union(*per_branch)) if per_branch else []
+        ctx.need(len(after) >= n_after, f"{f.qname}: fewer than {n_after} names flow out of the dispatch chain ({after})")
+        for i, assigned in enumerate(per_branch):
             ctx.ob(R, f.qname, f"branch {i}: {after} assigned", set(after) <= assigned, f"assigned {sorted(assigned & set(after))}", node)
     ctx.floor(R, 2)
 
